@@ -297,3 +297,114 @@ def bounded_interpolate_between_restarts(tier, seed):
 
 
 EXTRAS = [bounded_interpolate_between_restarts]
+
+
+# ------------------------------------------------------------------------------------------ bounded: real adaptive runs
+def bounded_adaptive_runs(tier, seed):
+    """real adaptive runs of controller_nonMPI (embedded / Runge-Kutta / polynomial / extrapolation-within-Q estimators; van der Pol non-stiff and
+    stiff, Lorenz) with random tolerances, observed by a recording hook at post_step:
+      * an accepted step's error estimate is at most the tolerance unless its retry budget was exhausted
+      * a rejected step is retried from the same time with a smaller step size
+      * accepted steps tile [t0, Tend] and every block uses one step size
+      * the run terminates (advances) or raises ConvergenceError"""
+    from pySDC.core.hooks import Hooks
+    from pySDC.core.errors import ConvergenceError
+    from pySDC.implementations.controller_classes.controller_nonMPI import controller_nonMPI
+    from pySDC.implementations.problem_classes.Van_der_Pol_implicit import vanderpol
+    from pySDC.implementations.problem_classes.Lorenz import LorenzAttractor
+    from pySDC.implementations.sweeper_classes.generic_implicit import generic_implicit
+    from pySDC.implementations.sweeper_classes.Runge_Kutta import Cash_Karp, DIRK43
+    from pySDC.implementations.convergence_controller_classes.adaptivity import Adaptivity, AdaptivityRK, AdaptivityPolynomialError, AdaptivityExtrapolationWithinQ
+    from pySDC.implementations.convergence_controller_classes.basic_restarting import BasicRestartingNonMPI
+
+    rng = np.random.RandomState(seed + 11)
+    rec = []
+
+    class Rec(Hooks):
+        def post_step(self, step, level_number):
+            L = step.levels[0]
+            est = L.status.get('error_embedded_estimate')
+            if est is None:
+                est = L.status.get('error_extrapolation_estimate')
+            rec.append(dict(t=L.time, dt=L.dt, restart=bool(step.status.restart), est=None if est is None else float(est), slot=step.status.slot,
+                            rir=int(step.status.get('restarts_in_a_row') or 0), dt_new=L.status.dt_new, iter=step.status.iter))
+
+    problems = [('vdp_nonstiff', vanderpol, dict(mu=1.0, u0=np.array([2.0, 0.0]), newton_tol=1e-10, newton_maxiter=50, crash_at_maxiter=False), 0.5, 1e-1),
+                ('vdp_stiff', vanderpol, dict(mu=20.0, u0=np.array([2.0, 0.0]), newton_tol=1e-10, newton_maxiter=99, crash_at_maxiter=False), 0.3, 2e-2),
+                ('lorenz', LorenzAttractor, dict(newton_tol=1e-10, newton_maxiter=50), 0.3, 2e-2)]
+    schemes = [('embedded', generic_implicit, dict(num_nodes=3, quad_type='RADAU-RIGHT', QI='IE'), Adaptivity, {}, 4, -1),
+               ('RK_explicit', Cash_Karp, {}, AdaptivityRK, dict(update_order=5), 1, -1),
+               ('RK_dirk', DIRK43, {}, AdaptivityRK, dict(update_order=4), 1, -1),
+               ('polynomial', generic_implicit, dict(num_nodes=3, quad_type='RADAU-RIGHT', QI='LU'), AdaptivityPolynomialError, {}, 16, 1e-9),
+               ('extrapolation_within_Q', generic_implicit, dict(num_nodes=3, quad_type='RADAU-RIGHT', QI='LU'), AdaptivityExtrapolationWithinQ, {}, 16, 1e-9)]
+    fails = {k: [] for k in ('accepted_steps_meet_the_tolerance_unless_budget_exhausted', 'rejected_step_retried_from_same_time_with_smaller_step',
+                             'accepted_steps_tile_the_interval', 'one_step_size_per_block', 'run_terminates_or_raises_ConvergenceError')}
+    cases = 0
+    seen = dict(accepted=0, restarts=0, convergence_errors=0, budget_exhausted=0)
+    ntol = 2 if tier == 'quick' else 5
+    for pname, pcls, pparams, Tend, dt0 in problems:
+        for sname, sw, sp, acls, aparams, maxiter, restol in schemes:
+            if sname == 'RK_explicit' and pname == 'vdp_stiff':
+                continue
+            for nprocs in ((1,) if sname.startswith('RK') or tier == 'quick' else (1, 2)):
+                for _ in range(ntol):
+                    e_tol = float(10 ** rng.uniform(-7, -4))
+                    max_restarts = int(rng.choice([2, 5, 10]))
+                    d = dict(problem_class=pcls, problem_params=dict(pparams), sweeper_class=sw, sweeper_params=dict(sp), level_params=dict(dt=dt0, restol=restol),
+                             step_params=dict(maxiter=maxiter),
+                             convergence_controllers={acls: dict(aparams, e_tol=e_tol), BasicRestartingNonMPI: dict(max_restarts=max_restarts, crash_after_max_restarts=False)})
+                    cfg = f'{pname}/{sname}/procs={nprocs}/e_tol={e_tol:.2e}/max_restarts={max_restarts}'
+                    del rec[:]
+                    cases += 1
+                    try:
+                        c = controller_nonMPI(num_procs=nprocs, controller_params=dict(logger_level=40, hook_class=[Rec], dump_setup=False, mssdc_jac=False), description=d)
+                        u0 = c.MS[0].levels[0].prob.u_exact(0.0)
+                        c.run(u0=u0, t0=0.0, Tend=Tend)
+                    except ConvergenceError:
+                        seen['convergence_errors'] += 1
+                        continue
+                    except Exception as e:  # anything else is not a documented way to stop
+                        fails['run_terminates_or_raises_ConvergenceError'].append(dict(config=cfg, error=repr(e)[:200]))
+                        continue
+                    # group the records into blocks (records of one block are consecutive with slots 0..k)
+                    blocks, cur = [], []
+                    for r in rec:
+                        if r['slot'] == 0 and cur:
+                            blocks.append(cur)
+                            cur = []
+                        cur.append(r)
+                    if cur:
+                        blocks.append(cur)
+                    accepted = []
+                    for bi, b in enumerate(blocks):
+                        if any(abs(r['dt'] - b[0]['dt']) > 1e-15 * max(1.0, abs(b[0]['dt'])) for r in b):
+                            fails['one_step_size_per_block'].append(dict(config=cfg, block=bi, dts=[r['dt'] for r in b]))
+                        first_restart = next((i for i, r in enumerate(b) if r['restart']), None)
+                        acc = b if first_restart is None else b[:first_restart]
+                        accepted += acc
+                        seen['accepted'] += len(acc)
+                        seen['restarts'] += first_restart is not None
+                        seen['budget_exhausted'] += sum(1 for r in acc if r['rir'] >= max_restarts)
+                        for r in acc:
+                            if r['est'] is not None and r['est'] > e_tol * (1 + 1e-12) and r['rir'] < max_restarts:
+                                fails['accepted_steps_meet_the_tolerance_unless_budget_exhausted'].append(dict(config=cfg, t=r['t'], est=r['est'], restarts_in_a_row=r['rir']))
+                        if first_restart is not None and bi + 1 < len(blocks):
+                            r, nxt = b[first_restart], blocks[bi + 1][0]
+                            if abs(nxt['t'] - r['t']) > 1e-12 or not (nxt['dt'] < r['dt']):
+                                fails['rejected_step_retried_from_same_time_with_smaller_step'].append(dict(config=cfg, t=r['t'], dt=r['dt'], next_t=nxt['t'], next_dt=nxt['dt']))
+                    t = 0.0
+                    ok = True
+                    for r in accepted:
+                        ok = ok and abs(r['t'] - t) <= 1e-10
+                        t = r['t'] + r['dt']
+                    if not ok or t < Tend - 1e-9:
+                        fails['accepted_steps_tile_the_interval'].append(dict(config=cfg, reached=t, Tend=Tend))
+    obs = []
+    for k, bad in fails.items():
+        obs.append(dict(name=f'bounded:{k}', status='proved' if not bad else 'refuted', backend='native-run', seconds=0.0, kind='bounded', size=0, model=dict(first=bad[:4]) if bad else None, reason='', path=0, counted=False))
+    return dict(contract='bounded:adaptive_runs', prop='C09', inst={}, label='bounded', kind='bounded', obligations=obs, canaries=[], paths=1, status='ok',
+                bounded=dict(what='real adaptive runs observed at post_step', bound='van der Pol (mu=1, 20), Lorenz; embedded / Cash-Karp / DIRK43 / polynomial / extrapolation-within-Q adaptivity; random tolerances 1e-7..1e-4 and retry budgets', cases=cases, observed=seen,
+                             failures=sum(1 for o in obs if o['status'] != 'proved')))
+
+
+EXTRAS = [bounded_interpolate_between_restarts, bounded_adaptive_runs]
